@@ -285,6 +285,9 @@ def main(tier, seed):
     from checks.common import Runner
 
     r = Runner("C06", tier, seed)
+    from checks import xhair
+
+    xhair.attach(r, ["rotation_is_recognised", "non_rotation_is_rejected", "filter_rotations_keeps_one_per_class"], "C06")
     r.run_specs(specs(tier))
     return r.finish(
         explanation="Real operators under SYMX (B translated symbolically); per path z3 decides over the whole cell: no zero-length piece "
